@@ -155,7 +155,10 @@ def run(job, seed):
                 conf = world.new_conf(w.root, policy_dirs=['d1'],
                                       enforce_new_defaults=end)
                 enf = P.Enforcer(conf)
+                # the two warning switches are about log output only; the
+                # noise rows run with both on, the others with the first
                 enf.suppress_deprecation_warnings = True
+                enf.suppress_default_change_warnings = bool(noise)
                 dep = P.DeprecatedRule(
                     old, O, deprecated_reason='because' if noise else 'r',
                     deprecated_since='Z' if noise else '1.0')
